@@ -2,7 +2,7 @@ from lanes import *  # noqa
 
 PROP = {
         "level": "exploration",
-        "level_text": "Seeded exploration with the original value as oracle: 80 hand-written macro call sites (every capture attribute x value class, plus 12 with two stacked capture attributes, each expanded through evt!, props!, emit!, the level macros debug!/info!/warn!/error!, dbg! alone / among several values / with a template through the process-wide runtime, #[emit::span] arguments and new_span!, and once more with the same key shadowed by a value of another primitive type in base `props:` and / or an ambient frame, where every typed read - pull::<T> and get().cast::<T>() for 17 target types on the concrete event, its erased form, by_ref and owned / shared copies - must equal the captured value's own cast) are driven with 10^5 (quick) to 2*10^6 (thorough) generated values - primitives at their extremes, hostile strings, nested structs/enums/options/sequences/maps with string/char/int/bool/float keys, error chains - and every captured value is read back on nine paths (direct, erased, props!, recording emitter behind a runtime, to_owned, to_shared, clone of shared, ThreadLocalCtxt frame, another thread) and compared with the original: typed pulls (bit-exact floats), Display/Debug text, serde_json / sval_json text against direct serialisation of the original by the same consumer for serde- and sval-captured values, error source chains, absence of a key for None. Miri and ASan run the same monitor at small scale over the unsafe Str / value-bag ownership paths (to_owned, to_shared, cross-thread moves). Held-on-what-was-observed, not a proof over all values or programs; a generated-programs lane is added separately.",
+        "level_text": "Seeded exploration with the original value as oracle: 80 hand-written macro call sites (every capture attribute x value class, plus 12 with two stacked capture attributes, each expanded through evt!, props!, emit!, the level macros debug!/info!/warn!/error!, dbg! alone / among several values / with a template through the process-wide runtime, #[emit::span] arguments and new_span!, and once more with the same key shadowed by a value of another primitive type in base `props:` and / or an ambient frame, where every typed read - pull::<T> and get().cast::<T>() for 17 target types on the concrete event, its erased form, by_ref and owned / shared copies - must equal the captured value's own cast; every second case also emits a WIDE event - 20..24, 32..40 or 64..100 properties over the call site, base props and three ambient frames, unsorted keys, `val` shadowed three times - where props().dedup() on the concrete and the erased event must show each key once with the FIRST value of the enumeration order and `val` as the call-site value with its type) are driven with 10^5 (quick) to 2*10^6 (thorough) generated values - primitives at their extremes, hostile strings, nested structs/enums/options/sequences/maps with string/char/int/bool/float keys, error chains - and every captured value is read back on nine paths (direct, erased, props!, recording emitter behind a runtime, to_owned, to_shared, clone of shared, ThreadLocalCtxt frame, another thread) and compared with the original: typed pulls (bit-exact floats), Display/Debug text, serde_json / sval_json text against direct serialisation of the original by the same consumer for serde- and sval-captured values, error source chains, absence of a key for None. Miri and ASan run the same monitor at small scale over the unsafe Str / value-bag ownership paths (to_owned, to_shared, cross-thread moves). Held-on-what-was-observed, not a proof over all values or programs; a generated-programs lane is added separately.",
         "level_note": "Trusts vcommon::model (hand-written serde/sval impls mirroring the derives, checked in every run against an independently computed JSON image by a strict parser written for the harness), serde_json and sval_json as reference consumers of the ORIGINAL value, and std formatting of the original as the Display/Debug reference.",
         "technique": "runtime monitoring: reference-oracle monitor over hand-written capture call sites x seeded model values x read paths; Miri + ASan lanes over the same monitor",
         "assumptions": [
